@@ -398,7 +398,28 @@ def c17(run, vc):
     pk = [v for v in r["vectors"] if v["act"] == "PokTs"]
     s = only_aborts(vc.replay(pk, "c17_pok", tables, profiles="5", build="checked"))
     run.add_replay(s, "timestamp proofs: every timestamp class x delay x timeout (checked build)", pk, lambda v: True)
-    return run.finish(rule="vectors = every transition of the Codec model (all mutations incl. every truncation length, every consumer of every decoded value, all 256 byte-OR values of the zero test at 6 import sites) on the plain release build and on a build with overflow checks and debug assertions; plus, on the checked build, the abort sites of the protocol modules: crafted LEB128 prefixes inside valid signcryption ciphertexts, truncated / empty / extended payloads, every W region of time-lock ciphertexts, every (timestamp, delay, timeout) class; trace = random and mutated inputs to every decoder on both builds, validated by TLC (no Abort outcome exists in the specification)",
+    # every verify function and every share combiner on the checked build (debug assertions and overflow checks on
+    # the paths the other properties only exercise in release): quick = an evenly spaced sample, thorough = all
+    cap = 1200 if tier == "quick" else 10 ** 9
+    for module, cfg, keep, label in (
+        ("MC_SigNet", "MC_SigNet_single_%s.cfg" % tier, lambda v: v["act"] in ("Verify", "Sign"), "single verification and signing, honest and tampered"),
+        ("MC_SigNet", "MC_SigNet_pop_%s.cfg" % tier, lambda v: v["act"] in ("PopVerify", "PopProve"), "proofs of possession"),
+        ("MC_SigNet", "MC_SigNet_agg_%s.cfg" % tier, lambda v: v["act"] in ("AggVerify", "Aggregate"), "aggregate verification incl. empty / mixed lists"),
+        ("MC_SigNet", "MC_SigNet_multi_%s.cfg" % tier, lambda v: v["act"] in ("MultiVerify", "Accumulate"), "multi-signature verification"),
+        ("MC_Threshold", "MC_Threshold_%s.cfg" % tier, lambda v: True, "split parameters, partial signing / verification, every combiner on every share list"),
+        ("MC_ElGamal", "MC_ElGamal_%s.cfg" % tier, lambda v: True, "ElGamal sums, proofs, share recombination"),
+        ("MC_SignCrypt", "MC_SignCrypt_%s.cfg" % tier, lambda v: v["act"] in ("ShareVerify", "DecryptShares"), "decryption-share verification and threshold opening"),
+        ("MC_Pok", "MC_Pok_%s.cfg" % tier, lambda v: v["act"] in ("Pok", "PokReuse"), "interactive proofs of knowledge"),
+    ):
+        r, bad = _tlc_stage(run, vc, module, cfg, [], timeout=7200)
+        if bad:
+            return run.finish()
+        vs = [v for v in r["vectors"] if keep(v)]
+        step = max(1, len(vs) // cap)
+        vs = vs[::step]
+        s = only_aborts(vc.replay(vs, "c17_" + cfg.replace(".cfg", ""), tables, profiles="5", build="checked"))
+        run.add_replay(s, label + " (checked build, aborts only)", vs, lambda v: True)
+    return run.finish(rule="vectors = every transition of the Codec model (all mutations incl. every truncation length, every consumer of every decoded value, all 256 byte-OR values of the zero test at 6 import sites) on the plain release build and on a build with overflow checks and debug assertions; plus, on the checked build, the abort sites of the protocol modules: crafted LEB128 prefixes inside valid signcryption ciphertexts, truncated / empty / extended payloads, every W region of time-lock ciphertexts, every (timestamp, delay, timeout) class, and (an evenly spaced sample in the quick tier, all in the thorough tier) the transitions of SigNet, Threshold, ElGamal, SignCrypt share handling and Pok; trace = random and mutated inputs to every decoder on both builds, validated by TLC (no Abort outcome exists in the specification)",
                       assumptions=["panics are observed under catch_unwind; non-termination would show as a timeout (exit 2)", "dependency calls are total per their contract"])
 
 
